@@ -325,7 +325,8 @@ class _ShaHasher(PasswordHasher):
             hash_method=self._sha_func,
             transpose_map=self._transpose_map,
         )
-        return hmac.compare_digest(info.hash, hashed)
+        # NOTE: compare_digest() refuses text with non-ascii characters
+        return hmac.compare_digest(info.hash.encode("utf-8"), hashed.encode("utf-8"))
 
     def identify(self, hash: StrOrBytes) -> bool:
         return self._inspect(hash_as_str(hash)) is not None
